@@ -903,7 +903,9 @@ def part_projection(job):
     p = Part()
     sens = np.array(LhDeck4SensorPositions.positions, dtype=float)
     defs = LighthouseGeometrySolution()
-    fronts = front_points(quick)
+    # "all base-station / Crazyflie pose pairs": also decks beside and behind the station (x <= 0 in its frame), where the
+    # sweep angles leave (-90, 90) degrees and only a quadrant-aware arctangent agrees with the types
+    fronts = front_points(quick) + [(-2.0, 0.5, 0.3), (-1.0, -1.0, 1.0), (-3.0, 0.2, -0.5)]
     for brv in bs_rots:
         RB = rodrigues(brv)
         bs_rows, cf_rows, idx_bs, idx_cf, idx_s, ref_types, ref_indep, meta = [], [], [], [], [], [], [], []
